@@ -87,3 +87,52 @@ def install(R):
            'forall("k:str", lambda k: implies(g._services.has(k), g._services[k] is not None and g._services[k].key == k)) and '
            + IDX.format(idx='types', keyof='lower(g._services[g.types[t][j]].type)', keyk='lower(g._services[k].type)').replace('\n', ' ')
            + ' and ' + IDX.format(idx='servers', keyof='g._services[g.servers[t][j]].server_key', keyk='g._services[k].server_key').replace('\n', ' '))
+
+
+def install_getters(R):
+    R.contract(M, 'ServiceRegistry.async_update', P, params={'info': 'ServiceInfo'},
+               requires=['wf_reg(self)', 'info is not None'],
+               modifies=['self._services', 'self.types', 'self.servers', 'self.has_entries',
+                         'info._dns_pointer_cache', 'info._dns_service_cache', 'info._dns_text_cache',
+                         'info._dns_address_cache_valid', 'info._addr_nsec_cache_valid'],
+               ensures=['wf_reg(self)', 'registered(self, info)',
+                        'forall("k:str", lambda k: self._services.has(k) == (old(self._services.has(k)) or k == info.key))',
+                        'forall("k:str", lambda k: implies(self._services.has(k) and k != info.key, self._services[k] is old(self._services[k])))',
+                        # after an update replies are built from fresh records only
+                        'info._dns_pointer_cache is None and info._dns_service_cache is None and info._dns_text_cache is None '
+                        'and not info._dns_address_cache_valid and not info._addr_nsec_cache_valid'])
+    R.contract(M, 'ServiceRegistry.async_remove', P, params={'info': 'ServiceInfo'},
+               requires=['wf_reg(self)', 'info is not None'],
+               modifies=['self._services', 'self.types', 'self.servers', 'self.has_entries'],
+               ensures=['wf_reg(self)', 'not self._services.has(info.key)',
+                        'forall("k:str", lambda k: implies(k != info.key, self._services.has(k) == old(self._services.has(k))))',
+                        'forall("k:str", lambda k: implies(self._services.has(k), self._services[k] is old(self._services[k])))'],
+               note='verified for a single ServiceInfo argument (the list form goes straight to _remove)')
+    R.contract(M, 'ServiceRegistry.async_get_info_name', P, params={'name': 'str'}, returns='opt[ServiceInfo]',
+               requires=['wf_reg(self)'],
+               ensures=['implies(self._services.has(name), result is self._services[name])',
+                        'implies(not self._services.has(name), result is None)'])
+    R.contract(M, 'ServiceRegistry.async_get_types', P, returns='list[str]', requires=['wf_reg(self)'],
+               ensures=['forall("j:int", lambda j: implies(0 <= j and j < len(result), self.types.has(result[j])))',
+                        'forall("t:str", lambda t: implies(self.types.has(t), exists("j:int", lambda j: 0 <= j and j < len(result) and result[j] == t)))',
+                        # hence (wf_reg: every bucket is non-empty and holds registered names of that type): exactly the
+                        # lower-cased types of the currently registered services
+                        'forall("j:int", lambda j: implies(0 <= j and j < len(result), len(self.types[result[j]]) > 0 '
+                        '   and self._services.has(self.types[result[j]][0]) and lower(self._services[self.types[result[j]][0]].type) == result[j]))'])
+    by_index = lambda idx, keyexpr: [
+        'forall("j:int", lambda j: implies(0 <= j and j < len(result), result[j] is not None and registered(self, result[j]) and %s == %s))' % (keyexpr.replace('X', 'result[j]'), '{q}'),
+        'forall("k:str", lambda k: implies(self._services.has(k) and %s == %s, exists("j:int", lambda j: 0 <= j and j < len(result) and result[j] is self._services[k])))' % (keyexpr.replace('X', 'self._services[k]'), '{q}'),
+        'forall("j:int, m:int", lambda j, m: implies(0 <= j and j < m and m < len(result), result[j] is not result[m]))']
+    R.contract(M, 'ServiceRegistry._async_get_by_index', P, params={'records': 'dict[str, list[str]]', 'key': 'str'},
+               returns='list[ServiceInfo]',
+               requires=['wf_reg(self)',
+                         'forall("j:int", lambda j: implies(records.has(key) and 0 <= j and j < len(records[key]), self._services.has(records[key][j])))'],
+               ensures=['implies(not records.has(key), len(result) == 0)',
+                        'implies(records.has(key), len(result) == len(records[key]) and '
+                        '   forall("j:int", lambda j: implies(0 <= j and j < len(result), result[j] is self._services[records[key][j]])))'])
+    R.contract(M, 'ServiceRegistry.async_get_infos_type', P, params={'type_': 'str'}, returns='list[ServiceInfo]',
+               requires=['wf_reg(self)'],
+               ensures=[e.format(q='type_') for e in by_index('types', 'lower(X.type)')])
+    R.contract(M, 'ServiceRegistry.async_get_infos_server', P, params={'server': 'str'}, returns='list[ServiceInfo]',
+               requires=['wf_reg(self)'],
+               ensures=[e.format(q='server') for e in by_index('servers', 'X.server_key')])
